@@ -7,9 +7,9 @@
   * `Cert D f lam v p`   : sub-gradient certificate  `p ∈ D ∧ ∀ z ∈ D, f p + ⟪(v-p)/lam, z-p⟫ ≤ f z`
                            (`D` = domain of `f`, `f` real-valued on `D`; indicators are `f = 0` on `D = C`)
   * `IsProx D f lam v p` : `p` minimises `lam·f + ½‖·-v‖²` over `D` with the strong-convexity gap `½‖x-p‖²`
-  * `IsMin D f lam v p`  : `p` is a global minimiser (used for the non-convex functionals)
+  * `IsGMin D f lam v p`  : `p` is a global minimiser (used for the non-convex functionals)
 
-  Theorems: `prox_of_cert`, `IsProx.isMin`, `IsProx.unique`, `prox_firm`, `prox_nonexpansive`,
+  Theorems: `prox_of_cert`, `IsProx.isGMin`, `IsProx.unique`, `prox_firm`, `prox_nonexpansive`,
   `cert_of_min_convex` (converse), the radial reductions `cert_radial` / `min_radial`, the projection
   lemmas for (squared) set distances, and the product-space lemma for separable sums.
 -/
@@ -35,7 +35,7 @@ def IsProx (D : Set E) (f : E → ℝ) (lam : ℝ) (v p : E) : Prop :=
   p ∈ D ∧ ∀ x ∈ D, lam * f p + 1 / 2 * ‖p - v‖ ^ 2 + 1 / 2 * ‖x - p‖ ^ 2 ≤ lam * f x + 1 / 2 * ‖x - v‖ ^ 2
 
 /-- `p` is a global minimiser of `lam f + ½‖·-v‖²` over `D` -/
-def IsMin (D : Set E) (f : E → ℝ) (lam : ℝ) (v p : E) : Prop :=
+def IsGMin (D : Set E) (f : E → ℝ) (lam : ℝ) (v p : E) : Prop :=
   p ∈ D ∧ ∀ x ∈ D, lam * f p + 1 / 2 * ‖p - v‖ ^ 2 ≤ lam * f x + 1 / 2 * ‖x - v‖ ^ 2
 
 /-- the three-point identity behind everything -/
@@ -56,13 +56,13 @@ theorem prox_of_cert {D : Set E} {f : E → ℝ} {lam : ℝ} {v p : E} (hlam : 0
   have : lam * (1 / lam * ⟪v - p, x - p⟫) = ⟪v - p, x - p⟫ := by field_simp
   nlinarith [mul_le_mul_of_nonneg_left hc hlam.le]
 
-theorem IsProx.isMin {D : Set E} {f : E → ℝ} {lam : ℝ} {v p : E} (h : IsProx D f lam v p) :
-    IsMin D f lam v p :=
+theorem IsProx.isGMin {D : Set E} {f : E → ℝ} {lam : ℝ} {v p : E} (h : IsProx D f lam v p) :
+    IsGMin D f lam v p :=
   ⟨h.1, fun x hx => by nlinarith [h.2 x hx, sq_nonneg ‖x - p‖]⟩
 
 /-- the minimiser is unique: any other global minimiser coincides with a certified point -/
 theorem IsProx.unique {D : Set E} {f : E → ℝ} {lam : ℝ} {v p q : E}
-    (hp : IsProx D f lam v p) (hq : IsMin D f lam v q) : q = p := by
+    (hp : IsProx D f lam v p) (hq : IsGMin D f lam v q) : q = p := by
   have h1 := hp.2 q hq.1
   have h2 := hq.2 p hp.1
   have : ‖q - p‖ ^ 2 ≤ 0 := by nlinarith
@@ -109,7 +109,7 @@ theorem prox_nonexpansive {D : Set E} {f : E → ℝ} {lam : ℝ} {v w p q : E} 
 theorem cert_of_min_convex {D : Set E} {f : E → ℝ} {lam : ℝ} {v p : E} (hlam : 0 < lam)
     (hconv : ∀ x ∈ D, ∀ y ∈ D, ∀ t : ℝ, 0 ≤ t → t ≤ 1 →
       (x + t • (y - x)) ∈ D ∧ f (x + t • (y - x)) ≤ (1 - t) * f x + t * f y)
-    (h : IsMin D f lam v p) : Cert D f lam v p := by
+    (h : IsGMin D f lam v p) : Cert D f lam v p := by
   refine ⟨h.1, fun z hz => ?_⟩
   rw [real_inner_smul_left]
   by_contra hc
@@ -207,7 +207,7 @@ theorem cert_radial {R : Set ℝ} {φ : ℝ → ℝ} {lam : ℝ} {v p : E} {s : 
 theorem min_radial {R : Set ℝ} {φ : ℝ → ℝ} {lam : ℝ} {v p : E} {s : ℝ}
     (hsR : s ∈ R) (hnp : ‖p‖ = s) (hal : ⟪v, p⟫ = ‖v‖ * s)
     (h1 : ∀ r ∈ R, 0 ≤ r → lam * φ s + 1 / 2 * (s - ‖v‖) ^ 2 ≤ lam * φ r + 1 / 2 * (r - ‖v‖) ^ 2) :
-    IsMin {x : E | ‖x‖ ∈ R} (fun x => φ ‖x‖) lam v p := by
+    IsGMin {x : E | ‖x‖ ∈ R} (fun x => φ ‖x‖) lam v p := by
   refine ⟨by simpa [hnp] using hsR, fun x hx => ?_⟩
   simp only [hnp]
   have hx' := h1 ‖x‖ hx (norm_nonneg x)
